@@ -15,7 +15,7 @@ LEVEL = 'exploration'
 RULE = ('lock-step scripts on real loopback sockets, one thread driving both ends so that the kernel\'s answers are determined: peer writes w1..wm (m <= 3, sizes in {1, 2, 23, 24, 25, 4096, '
         '70000}) x transport read size in {1, 24, 4096, 1 MiB} x interleaving pattern {all writes then drain, one read after each write then drain, drain after each write} x transport '
         '{TcpTransport, TcpTransportAsync}; reads on an empty pipe with timeouts {0.05, 0.2} followed by a late write; transport writes of {1, 24, 70000} bytes read back by the peer; close twice; '
-        'close -> connect -> read on a fresh connection; whole device sessions (connect, shell, push 100 KiB / 1 MiB, pull, list) against a socket server running the device model with default '
+        'close -> connect -> read on a fresh connection; connect(None) followed by small-timeout reads on an idle connection; the peer resetting the connection (RST) followed by close twice and a new connect; whole device sessions (connect, shell, push 100 KiB / 1 MiB, pull, list) against a socket server running the device model with default '
         'and 4 KiB socket buffers and a slow reader; oracle: every read returns 1..n bytes, the concatenation of reads equals the concatenation of writes, an empty pipe raises '
         'TcpTimeoutException not before half the timeout and the late write is then read intact, idempotent close, nothing stale after reconnect, both transports deliver identical byte '
         'streams, session results == the in-memory session; non-trivial = script moves at least 2 bytes; distinct = distinct script x transport')
@@ -144,9 +144,16 @@ def run_timeout(params, ch):
     peer = tcpsim.Peer()
     d = Drv(kind, peer.port)
     viol = []
+    timer = None
     try:
-        d.call('connect', 10.0)
+        d.call('connect', params.get('ctimeout', 10.0))
         peer.accept()
+        if params.get('ctimeout', 10.0) is None:
+            # safety net only: if a read with a small timeout blocks (instead of raising), late data arrives after 3 s and unblocks it
+            import threading
+            timer = threading.Timer(3.0, lambda: peer.write(b'UNBLOCK'))
+            timer.daemon = True
+            timer.start()
         if params['prefix']:
             peer.write(b'p' * params['prefix'])
             r = b''
@@ -161,6 +168,9 @@ def run_timeout(params, ch):
                 el = time.monotonic() - t0
                 if el < 0.5 * T:
                     viol.append({'msg': 'TcpTimeoutException after %.4f s, timeout %.3f s' % (el, T)})
+        if timer is not None:
+            timer.cancel()
+            timer.join()
         late = rng('late', params['late']).randbytes(params['late'])
         peer.write(late)
         r = b''
@@ -176,9 +186,58 @@ def run_timeout(params, ch):
     except Exception as e:  # pylint: disable=broad-except
         viol.append({'msg': 'timeout script %r raised %s: %s' % (params, type(e).__name__, str(e)[:200])})
     finally:
+        if timer is not None:
+            timer.cancel()
         d.finish()
         peer.close()
-    return {'outcome': (len(viol),), 'viol': viol, 'nontrivial': tuple(sorted(params.items())), 'sample': dict(params), 'trans': params['repeat'] + 2}
+    return {'outcome': (len(viol),), 'viol': viol, 'nontrivial': tuple(sorted((k, str(v)) for k, v in params.items())), 'sample': dict(params), 'trans': params['repeat'] + 2}
+
+
+def run_reset(params, ch):
+    """The peer resets the connection (RST); close() must still be idempotent and the transport must connect again."""
+    import struct
+    kind = params['transport']
+    peer = tcpsim.Peer()
+    d = Drv(kind, peer.port)
+    viol = []
+    try:
+        d.call('connect', 10.0)
+        conn = peer.accept()
+        peer.write(b'hello')
+        r = b''
+        while len(r) < 5:
+            r += d.call('bulk_read', 64, 10.0)
+        if params['pending']:
+            d.call('bulk_write', b'unread by the peer', 10.0)      # data the peer never reads: its close then sends RST
+        conn.setsockopt(socket.SOL_SOCKET, socket.SO_LINGER, struct.pack('ii', 1, 0))
+        peer.close_conn()
+        time.sleep(0.05)
+        if d.loop is not None:
+            d.loop.run_until_complete(asyncio.sleep(0.05))           # let the event loop observe the reset
+        if params['touch']:
+            try:
+                d.call('bulk_read', 16, 0.05)
+            except Exception:  # pylint: disable=broad-except
+                pass                                              # what a read on a reset connection does is not specified by C18
+        for i in (1, 2):
+            try:
+                d.call('close')
+            except Exception as e:  # pylint: disable=broad-except
+                viol.append({'msg': 'close() #%d after the peer reset the connection raised %s: %s' % (i, type(e).__name__, e)})
+        d.call('connect', 10.0)
+        peer.accept()
+        peer.write(b'fresh')
+        r = b''
+        while len(r) < 5:
+            r += d.call('bulk_read', 64, 10.0)
+        if r != b'fresh':
+            viol.append({'msg': 'after reset/close/connect the transport read %r' % (r,)})
+    except Exception as e:  # pylint: disable=broad-except
+        viol.append({'msg': 'reset script %r raised %s: %s' % (params, type(e).__name__, str(e)[:200])})
+    finally:
+        d.finish()
+        peer.close()
+    return {'outcome': (len(viol),), 'viol': viol, 'nontrivial': tuple(sorted(params.items())), 'sample': dict(params), 'trans': 6}
 
 
 _REF = {}
@@ -312,6 +371,11 @@ def parts(tier):
     sc = [{'transport': t, 'T': T, 'rsize': r, 'prefix': pf, 'repeat': rp, 'late': lt} for t in ('sync', 'async') for T in (0.05, 0.2) for r in (1, 24, 4096) for pf in (0, 7)
           for rp in (1, 2) for lt in (1, 24, 5000)]
     out.append(Part('empty-pipe-timeouts', sc, run_timeout, what='timed-out reads followed by a late write', bound='%d scripts' % len(sc), chunk=2, min_outcomes=1))
+    sc = [{'transport': t, 'T': T, 'rsize': r, 'prefix': pf, 'repeat': 1, 'late': 24, 'ctimeout': None} for t in ('sync', 'async') for T in (0.05, 0.2) for r in (1, 4096) for pf in (0, 7)]
+    out.append(Part('connect-without-timeout', sc, run_timeout, what='transport connected with timeout None, then reads with a small timeout on an idle connection', bound='%d scripts' % len(sc),
+                    chunk=1, min_outcomes=1))
+    sc = [{'transport': t, 'pending': p, 'touch': x} for t in ('sync', 'async') for p in (False, True) for x in (False, True)]
+    out.append(Part('peer-reset', sc, run_reset, what='the peer resets the connection; close twice; connect again', bound='%d scripts' % len(sc), chunk=1, min_outcomes=1))
     sc = session_scenarios(tier)
     out.append(Part('loopback-sessions', sc, run_tcp_session, what='whole device sessions over loopback TCP against the device model', bound='%d sessions (conformance runs, not exhaustive)' % len(sc),
                     exhaustive=False, chunk=1, min_outcomes=1, workers=4))
